@@ -131,6 +131,10 @@ def _random_jobs(rng, n):
                     texts.append(b"y")
                 kinds, texts = kinds[:k], texts[:k]
             yield ("fmt", "%", f, kinds, texts)
+        elif r < 0.705:
+            f = b"".join(rng.choice(pieces) for _ in range(rng.randint(0, 5)))
+            k = len(f.split(b"{}")) - 1
+            yield ("raiseft", f, rng.choice([b" tail", b"", b"{}", b": "]), rng.randint(-9, 99), [rng.choice(POOL) for _ in range(k)])
         elif r < 0.715:
             yield ("raiseb", rng.choice([b"bad value: ", b"", b"x", b"{}"]), rng.randint(-50, 300),
                    rng.choice([b" units", b"", b", "]))
@@ -208,6 +212,8 @@ def op_line(job):
         return "RAISEM s:%s i:%d %s" % (hx(job[1]), job[2], job[3])
     if job[0] == "raiseb":
         return "RAISEB s:%s i:%d s:%s" % (hx(job[1]), job[2], hx(job[3]))
+    if job[0] == "raiseft":
+        return " ".join(["RAISEFT", hx(job[1]), "s:" + hx(job[2]), "i:%d" % job[3]] + ["s:" + hx(a) for a in job[4]])
     raise ValueError(job)
 
 
@@ -276,6 +282,20 @@ def judge(job, res):
         got = bytes.fromhex(f[2][1:])
         if got != want:
             return ("raise:message-is-not-the-concatenation", "what() = %r, expected %r" % (got, want))
+        return None
+    if job[0] == "raiseft":
+        text = reference(job[1], job[4])
+        num = str(job[3]).encode()
+        want = [text + job[2] + num, text + job[2] + num, num + text + job[2]]
+        f = line.split()
+        if len(f) != 5 or f[1] != "nitro":
+            return ("raise:no-library-exception", line[:200])
+        got = [bytes.fromhex(x[1:]) for x in f[2:]]
+        for g, w_, how in zip(got, want, ("raise(format, text, number)", "raise<custom>(format temporary, text, number)",
+                                          "raise(number, format, text)")):
+            if g != w_:
+                return ("raise:format-object-among-other-arguments:message-is-not-the-concatenation",
+                        "%s: what() = %r, expected %r" % (how, g, w_))
         return None
     if job[0] == "raiseb":
         want = job[1] + str(job[2]).encode() + job[3] + job[1]
